@@ -25,6 +25,7 @@ SIG_ZIP = "crosspows-zip-misaligned"         # C20-F2
 SIG_ABSENT = "raises-KeyError:absent-namespace"   # C20-F3
 SIG_NAMES = "sparse-names-collide:monomials"      # C20-F4
 SIG_FEATS = "sparse-names-collide:features"       # C20-F5
+FL53_TIE = True       # the driver op "fl53" (rounding model) exists
 
 
 # ------------------------------------------------------------------ building the real call
@@ -955,7 +956,14 @@ class C20(Property):
             "call they make; 3% of the cases check the float multiplication law itself on random doubles with Fractions; for the synthetic entry points the rewards of the generated environment "
             "are fitted exactly (Fractions) against the monomials of the expansion: affine, and every monomial counts; learner cases with an empty "
             "context are re-run under several PYTHONHASHSEEDs; the model's `normalise` (argument shapes) is compared with the spied encoder "
-            "terms; dense lengths are checked against the binomial formula independently of the values; non-trivial = at least one term and at least 3 expected entries; distinct by canonical JSON of the case")
+            "terms; dense lengths are checked against the binomial formula independently of the values; non-trivial = at least one term and at least 3 expected entries; distinct by canonical JSON of the case; "
+            "5% of the cases (+14 corpus cases) are HISTORIES of 1-9 predict/learn calls on one real LinUCBLearner / LinTSLearner (v=0) running on an exact "
+            "stand-in for numpy (Fractions on lists, props/c20_numpy.py): 45% start with 1-3 requests the learner rejects (sparse action or "
+            "sparse context, falsy or truthy context, through predict or learn) before the first accepted one; dyadic contexts/actions/rewards; "
+            "every encode call the learner makes is judged against the expansion of the REQUESTED terms (x-less rewriting when the first "
+            "accepted request has no context), the vectors must belong to the request's (context, action) pairs, pmfs and final theta/A^-1 "
+            "are compared with the Lean Sherman-Morrison model, and 60% of the histories with >= 2 string terms are run a second time with "
+            "the terms in another order (same pmfs; permuted model run)")
     trusted_base = [
         "products are compared exactly (ints, or dyadic floats small enough that every float product is exact); cases with arbitrary doubles "
         "are compared at the relative tolerance (1+2^-53)^(d-1)-1 of theorem encode_float_model (standard model: no under/overflow, "
@@ -968,8 +976,14 @@ class C20(Property):
         "and ExactOn (a representable product is returned exactly) - checked on CPython's doubles with exact Fractions by the "
         "`floatmul` stream of the correspondence (3% of the cases); on the dyadic value pools no assumption about rounding is needed "
         "(encode_float_exact_dyadic)",
+        "phase 4: ExactOn is now PROVED for the explicit rounding model fl53 (round to nearest, ties to even, 53 significant bits, no exponent "
+        "range; exactOn_fl53, encode_float53_exact_dyadic); what is trusted instead is that CPython's double multiplication IS fl53 away from "
+        "under/overflow - compared step by step by the `floatmul` stream (driver op fl53), 20% of those chains built to hit exact ties",
         "the treatments of the term argument (asIs / wrapStr / listOf / tupleOf) are read off the entry points' source by a small AST "
         "reader; an unknown rebinding makes it fall back to the last known treatments and say so",
+        "learner histories: numpy is replaced by an exact stand-in (props/c20_numpy.py: Fractions on lists; zeros, identity, array, @, einsum "
+        "'ij,ij->j', outer, amax, where, sqrt via math.sqrt) - the REAL linucb.py / lints.py code runs on it; LinTS only with v=0 (no "
+        "multivariate_normal); sqrt is the only inexact operation and is replayed identically on the model's exact bounds",
         "the callers are run with a recording subclass substituted for the module-level name InteractionsEncoder and, where numpy is "
         "not installed, a stub numpy module (only the encoder calls made before the first numpy use are observed)",
     ]
@@ -1069,6 +1083,8 @@ class C20(Property):
             os.makedirs(os.path.dirname(path), exist_ok=True)
             with open(path, "w", encoding="utf-8") as f:
                 f.write(body)
+        from props import c20_learner
+        notes += c20_learner.write_generated(lean.LEAN_DIR)
         return notes
 
     # ---- values
@@ -1222,6 +1238,9 @@ class C20(Property):
     def generate(self, rng, tier, focus=False):
         if not focus and rng.chance(0.06):
             return self.gen_caller(rng)
+        if rng.chance(0.05 if not focus else 0.1):
+            from props import c20_learner
+            return c20_learner.gen(rng, PRIMES, W)
         if not focus and rng.chance(0.03):
             return self.gen_floatmul(rng)
         case = self.gen_call(rng, tier, focus)
@@ -1523,6 +1542,8 @@ class C20(Property):
             {"terms": ["xx", "xa"], "ns": [["x", D({"s": "red", "sc": "cat"}, {"n": [3, 1]})], ["a", D({"n": [5, 1]}, {"s": "s", "sc": "sub"})]]},
             {"terms": ["xa"], "ns": [["x", {"k": "sparse", "wrap": "dict", "v": [[{"i": 1}, {"s": "red", "sc": "cat"}], [{"s": "k"}, {"n": [3, 1]}]]}], ["a", {"k": "scalar", "v": {"s": "t", "sc": "sub"}}]]},
         ]
+        from props import c20_learner
+        cs += c20_learner.corpus()
         return cs
 
     # ---- evaluation
@@ -1531,8 +1552,13 @@ class C20(Property):
         arguments) only, so every call is judged on its own, (A)(B)(C), exactly like a single call"""
         if "caller" in case:
             return self.evaluate_caller(case, driver)
+        if "learner" in case:
+            from props import c20_learner
+            from core import lean as _lean
+            return c20_learner.evaluate(self, case, driver, {"build_val": build_val, "build_val_plain": build_val_plain, "canon_out": canon_out,
+                                                             "py_to_val": py_to_val, "term_to_case": term_to_case, "DriverError": _lean.DriverError})
         if "floatmul" in case:
-            return self.evaluate_floatmul(case)
+            return self.evaluate_floatmul(case, driver)
         calls = calls_of(case)
         copies = [c for c in (case.get("copies") or [])][:len(calls)]
         if len(calls) == 1 and not any(copies):
@@ -1582,7 +1608,7 @@ class C20(Property):
             out["tags"].append("hist:dense-and-sparse-calls")
         return out
 
-    def evaluate_floatmul(self, case):
+    def evaluate_floatmul(self, case, driver=None):
         """the ONE remaining assumption of the float theorems, checked on CPython's doubles with exact Fractions:
         fl(a*b) = a*b*(1+eps), |eps| <= 2^-53 (FloatMul), a*1 = a, and fl(a*b) = a*b whenever a*b is a double (ExactOn)"""
         fails, tags = [], ["floatmul"]
@@ -1605,10 +1631,38 @@ class C20(Property):
             if acc * 1 != acc or 1 * acc != acc:
                 fails.append(F("C", "float law: %r * 1 != itself" % acc, "C:floatmul-one"))
             acc = got
-        return {"fails": fails, "tags": tags, "nontrivial": len(xs) >= 2, "impl": repr(acc), "model": None}
+        model = None
+        if driver is not None and FL53_TIE:
+            # the Lean rounding model `fl53` (round to nearest even, 53 bits, no exponent range) against CPython's doubles, step by step
+            from core import lean as _lean
+            try:
+                model = driver.ask({"op": "fl53", "chain": case["floatmul"]})["prods"]
+                acc2 = xs[0]
+                for i, y in enumerate(xs):
+                    if i > 0:
+                        acc2 = acc2 * y
+                    if not math.isfinite(acc2) or (acc2 != 0 and abs(acc2) < 2.0 ** -1000) or (acc2 == 0 and i > 0 and xs[i] != 0 and Fraction(model[i][0], model[i][1]) != 0):
+                        tags.append("fl53:out-of-range")
+                        break
+                    if Fraction(model[i][0], model[i][1]) != Fraction(acc2):
+                        fails.append(F("A", "rounding model: step %d of the chain %r: CPython gives %r, fl53 gives %s" % (i, xs, acc2, Fraction(model[i][0], model[i][1])), "A:fl53-model"))
+                        break
+                else:
+                    tags.append("fl53:chain-agrees")
+            except _lean.DriverError as e:
+                fails.append(F("A", "Lean driver op fl53 failed: %s" % str(e)[:160], "A:fl53-driver"))
+        return {"fails": fails, "tags": tags, "nontrivial": len(xs) >= 2, "impl": repr(acc), "model": model}
 
     def gen_floatmul(self, rng):
         xs = []
+        if rng.chance(0.2):
+            # exact ties of the rounding (phase 4, rounding model fl53): a 53-bit odd significand times 1.5 / 2.5 / 0.75 / 3 / 5 ends in
+            # exactly one half unit in the last place -> round to even
+            m = rng.randint(2 ** 52, 2 ** 53 - 1) | 1
+            xs.append(list(float(m * 2.0 ** rng.randint(-60, 8)).as_integer_ratio()))
+            for _ in range(rng.randint(1, 3)):
+                xs.append(list(float(rng.choice([1.5, 2.5, 0.75, 3.0, 5.0, 1.25, -1.5, 0.375])).as_integer_ratio()))
+            return {"floatmul": xs, "ties": True}
         for _ in range(rng.randint(2, 8)):
             if rng.chance(0.4):     # dyadic with few bits: products stay representable for a while
                 x = rng.randint(-4095, 4095) / 2 ** rng.randint(0, 12)
@@ -1830,6 +1884,17 @@ class C20(Property):
                 mine = {"sparse": o.sparse_dict(d)} if o.sparse else {"dense": o.dense(d)}
                 if mine != spec:
                     fails.append(F("C", "Lean specification %s differs from the itertools reference %s" % (json.dumps(ans["spec"])[:200], fmt_out(mine)), "C:spec-vs-itertools"))
+                if o.sparse and "collides" in ans:
+                    # phase 4, `sparse_faithful_iff`: the mapping holds every named monomial exactly when no two of them share a name
+                    cand = o.sparse_candidates(d)
+                    py_coll = any(len(v) > 1 for v in cand.values())
+                    py_n = sum(len(v) for v in cand.values())
+                    tags.append("sparse:collides" if py_coll else "sparse:no-collision")
+                    if ans["collides"] != py_coll or ans["nmonos"] != py_n:
+                        fails.append(F("C", "Lean collides/sparseMonos = %r/%d, the itertools reference says %r/%d" % (ans["collides"], ans["nmonos"], py_coll, py_n), "C:collides"))
+                    elif "sparse" in impl and (len(impl["sparse"]) == py_n) != (not py_coll):
+                        fails.append(F("A", "%s returned %d keys for %d named monomials, collides = %r (sparse_faithful_iff: all monomials are kept iff no two share a name)"
+                                       % (show_call(case), len(impl["sparse"]), py_n, py_coll), "A:sparse-faithful-iff"))
             elif m != {"err": "IndexError"}:
                 fails.append(F("C", "a term without namespaces should give IndexError in the model", "C:empty-term"))
         return {"fails": fails, "nontrivial": nontrivial, "tags": tags, "impl": jsonable(impl) if ("dense" in impl or "sparse" in impl) else impl, "model": model}
@@ -1850,6 +1915,10 @@ class C20(Property):
         return itertools.islice(self.shrink_all(case), 160)
 
     def shrink_all(self, case):
+        if "learner" in case:
+            from props import c20_learner
+            yield from c20_learner.shrink(case)
+            return
         if "floatmul" in case:
             xs = case["floatmul"]
             for i in range(len(xs)):
@@ -1935,6 +2004,9 @@ class C20(Property):
     def snippet(self, case):
         if case is None:
             return ""
+        if "learner" in case:
+            from props import c20_learner
+            return c20_learner.snippet(case, build_val_plain)
         if "floatmul" in case:
             return ("from fractions import Fraction\nxs = %r\nacc = xs[0]\nfor y in xs[1:]:\n    e = Fraction(acc) * Fraction(y); g = acc * y\n"
                     "    print(acc, y, g, abs(Fraction(g) - e) <= abs(e) / 2**53); acc = g\n" % [a / b for a, b in case["floatmul"]])
